@@ -84,12 +84,16 @@ Definition strip_init (nd : node) : node :=
 
 (* once: what a directed probe says about the tree under test - the loader executes each lightweight task
    once (fixes/C13-1.diff) or every entry of the init-task list                                 *)
-Definition case_t := (heap * nat * option nat * bool * answer)%type.
-Definition Case (h : heap) (root : nat) (first : option nat) (once : bool) (a : answer) : case_t :=
-  (h, root, first, once, a).
+Definition case_t := (heap * nat * option nat * (bool * bool) * answer)%type.
+(* sonce: the ObjectStore remembers the pre-tasks it executed (fixes/C13-3.diff), as a probe says *)
+Definition Case (h : heap) (root : nat) (first : option nat) (once sonce : bool) (a : answer) : case_t :=
+  (h, root, first, (once, sonce), a).
+
+Fixpoint execs_of (l : list call) : list nat :=
+  match l with [] => [] | Execute p :: l' => p :: execs_of l' | _ :: l' => execs_of l' end.
 
 Definition check_instance_gen (pf : bool) (c : case_t) : bool :=
-  let '(h, root, first, _, a) := c in
+  let '(h, root, first, (_, sonce), a) := c in
   let hA := map strip_init h in
   match first with
   | None =>
@@ -102,7 +106,8 @@ Definition check_instance_gen (pf : bool) (c : case_t) : bool :=
   | Some r0 =>
       match instantiate_gen hA [] pf r0 with
       | Some r1 =>
-          match instantiate_gen hA (map o_id (r_objects r1)) pf root with
+          match (if sonce then instantiate_store hA (map o_id (r_objects r1)) (execs_of (r_log r1)) root
+                 else instantiate_gen hA (map o_id (r_objects r1)) pf root) with
           | Some r2 => list_eqb (list_eqb call_eqb) (a_logsA a) [r_log r1; r_log r2]
                        && objs_agree (r_objects r1 ++ r_objects r2) (a_objsA a)
                        && list_eqb Nat.eqb (a_retA a) [r_root r1; r_root r2]
@@ -115,7 +120,7 @@ Definition check_instance_gen (pf : bool) (c : case_t) : bool :=
 Definition check_instance : case_t -> bool := check_instance_gen false.
 
 Definition check_params (c : case_t) : bool :=
-  let '(h, root, first, once, a) := c in
+  let '(h, root, first, (once, _), a) := c in
   match load_gen once h root with
   | Some r => list_eqb call_eqb (a_logB a) (r_log r)
               && objs_agree (r_objects r) (a_objsB a)
@@ -127,7 +132,7 @@ Definition check_params (c : case_t) : bool :=
    parameter-file model (what they execute besides is the oracle's business)                    *)
 Definition is_post (c : call) : bool := match c with PostInit _ _ => true | _ => false end.
 Definition check_loader (c : case_t) : bool :=
-  let '(h, root, first, once, a) := c in
+  let '(h, root, first, (once, _), a) := c in
   let hC := if a_initC a then h else map strip_init h in
   match load_gen once hC root with
   | Some r => list_eqb call_eqb (filter is_post (a_logC a)) (filter is_post (r_log r))
